@@ -37,6 +37,10 @@ Operand(f, i) == CASE f = "var" -> <<36, Letter(i)>>
                    [] f = "negsp" -> IF (i % 2) = 1 THEN <<45, 32, 48 + i>> ELSE <<45, 32, 36, Letter(i)>>
                    \* operands that end in } and | : function($a){$a}  and  |a|{}|  (what follows them is an operator)
                    [] f = "fn" -> IF (i % 2) = 1 THEN <<102,117,110,99,116,105,111,110,40,36,97,41,123,36,97,125>> ELSE <<124, Letter(i), 124, 123, 125, 124>>
+                   \* operands that are a wildcard or a descendant step: * and ** are operands here and operators elsewhere,
+                   \* and what follows them is an operator (a slash is division)
+                   [] f = "wild" -> IF (i % 2) = 1 THEN <<42>> ELSE <<42, 42>>
+                   [] f = "wildn" -> IF (i % 2) = 1 THEN <<Letter(i), 46, 42, 42>> ELSE <<Letter(i), 46, 42>>
                    [] f = "xf" -> IF (i % 2) = 0 THEN <<102,117,110,99,116,105,111,110,40,36,97,41,123,36,97,125>> ELSE <<124, Letter(i), 124, 123, 125, 124>>
 
 \* render a chain: sp = separator placed around every token (<<>> for tight, except around words)
@@ -60,7 +64,7 @@ Spaced(f, ch) == Text(f, ch, <<32, 10, 9>>)
 Chains == UNION {[1..n -> Links] : n \in 2..MaxLinks}
 \* two-level enumeration: the theorems are evaluated on the successor states, by the worker threads
 \* chains of four links: binary operators only, over variables (the other flavours and the postfix forms stay at three links)
-Init == chain \in Chains /\ flav \in Flavours /\ (flav \in {"fn", "xf"} => Len(chain) <= 2)
+Init == chain \in Chains /\ flav \in Flavours /\ (flav \in {"fn", "xf", "wild", "wildn"} => Len(chain) <= 2)
         /\ (Len(chain) >= 4 => (flav = "var" /\ \A i \in 1..Len(chain) : chain[i] \in BinOps)) /\ done = FALSE
 Next == ~done /\ done' = TRUE /\ UNCHANGED <<chain, flav>>
 Spec == Init /\ [][Next]_vars
